@@ -130,12 +130,24 @@ func (n *Node) Execute(ctx context.Context) error {
 		return err
 	}
 	verifPoint("node.created", n)
+	// Drain the output pipe while the command runs: a pipe only holds 64 KiB,
+	// so reading it after the command has exited blocks a step that prints
+	// more than that forever.
+	var buf bytes.Buffer
+	drained := make(chan struct{})
+	if n.outputReader != nil && n.data.Step.Output != "" {
+		go func() {
+			defer close(drained)
+			// TODO: Error handling
+			_, _ = io.Copy(&buf, n.outputReader)
+		}()
+	} else {
+		close(drained)
+	}
 	n.SetError(cmd.Run())
 	if n.outputReader != nil && n.data.Step.Output != "" {
 		util.LogErr("close pipe writer", n.outputWriter.Close())
-		var buf bytes.Buffer
-		// TODO: Error handling
-		_, _ = io.Copy(&buf, n.outputReader)
+		<-drained
 		ret := strings.TrimSpace(buf.String())
 		_ = os.Setenv(n.data.Step.Output, ret)
 		n.data.Step.OutputVariables.Store(
